@@ -137,9 +137,9 @@ Proof. intros Hs Hst. destruct e; cbn in Hs; inv Hs; inv Hst; unfold InOrder in 
 Theorem wf_timestamps_sorted : forall tr s, WF s tr -> StronglySorted Z.le (stamps tr) /\ Forall (fun t => last s <= t) (stamps tr).
 Proof.
   induction tr as [|e r IH]; intros s H; cbn [stamps]; [split; constructor|].
-  inv H. destruct (IH _ H4) as [Hs Hf]. pose proof (last_next_ge s e) as Hge.
+  inversion H as [|s' e' r' Hstep Hwf]; subst. destruct (IH _ Hwf) as [Hs Hf]. pose proof (last_next_ge s e) as Hge.
   destruct (stamp e) as [t|] eqn:Est.
-  - pose proof (last_next_stamp s e t Est H2) as Hl. rewrite Hl in Hf.
+  - pose proof (last_next_stamp s e t Est Hstep) as Hl. rewrite Hl in Hf.
     assert (Ht : last s <= t) by lia.
     split.
     + constructor; [exact Hs|exact Hf].
@@ -155,11 +155,13 @@ Definition uses (e : ev) (c : Z) : Prop :=
   | _ => False
   end.
 Definition creates (e : ev) (c : Z) : Prop := match e with Create _ x _ _ => x = c | _ => False end.
+Lemma creates_dec e c : creates e c \/ ~ creates e c.
+Proof. destruct e; cbn; try (right; tauto). destruct (Z.eq_dec c0 c); [left|right]; assumption. Qed.
 
 Lemma step_uses_alive s e c : Step s e -> uses e c -> Alive s c.
 Proof.
-  intros H U. inv H; cbn in U; try contradiction; subst; try assumption.
-  - destruct U as [-> Hn]. destruct H3; [contradiction|assumption].
+  intros H U. destruct H as [| | |t c0 ty p Ho Hna Hty Hp| | | | | | |t ty c0 e0 Ho Hty Hc He|]; cbn in U; try contradiction; subst; try assumption.
+  - destruct U as [-> Hn]. destruct Hp; [contradiction|assumption].
   - destruct U as [<-|<-]; assumption.
 Qed.
 Lemma not_alive_next s e c : ~ Alive s c -> ~ creates e c -> ~ Alive (next s e) c.
@@ -175,11 +177,11 @@ Theorem wf_no_use_unless_alive : forall tr s c pre e post,
 Proof.
   induction tr as [|a r IH]; intros s c pre e post H Hn Heq U.
   - destruct pre; discriminate.
-  - inv H. destruct pre as [|b pre]; cbn in Heq; inv Heq.
+  - inversion H as [|s' e' r' Hstep Hwf]; subst. destruct pre as [|b pre]; cbn in Heq; inversion Heq; subst.
     + exfalso. apply Hn. eapply step_uses_alive; eassumption.
-    + destruct (classic_creates b c) as [Hc|Hc].
+    + destruct (creates_dec b c) as [Hc|Hc].
       * exists b. split; [left; reflexivity|exact Hc].
-      * destruct (IH (next s b) c pre e post H4 (not_alive_next s b c Hn Hc) eq_refl U) as [x [Hx Hcx]].
+      * destruct (IH (next s b) c pre e post Hwf (not_alive_next s b c Hn Hc) eq_refl U) as [x [Hx Hcx]].
         exists x. split; [right; exact Hx|exact Hcx].
 Qed.
 
@@ -210,7 +212,7 @@ Theorem insert_spec (e : bev) (buf : list bev) :
                 match rev l1 with [] => True | x :: _ => fst x <= fst e end.
 Proof.
   destruct (insert_r_spec e (rev buf)) as [r1 [r2 [H1 [H2 [H3 H4]]]]].
-  exists (rev r2), (rev r1). unfold insert. rewrite H2. repeat split.
+  exists (rev r2), (rev r1). unfold insert, Paje.bev in *. rewrite H2. repeat split.
   - rewrite <- rev_app_distr, <- H1, rev_involutive. reflexivity.
   - rewrite rev_app_distr. cbn [rev]. rewrite <- app_assoc. reflexivity.
   - apply Forall_rev. exact H3.
@@ -258,7 +260,7 @@ Proof.
   - destruct (fst e >? lim) eqn:E.
     + inv H. split; [reflexivity|constructor].
     + destruct (dump_upto A lim r) as [o' k'] eqn:Ed. inv H. destruct (IH _ _ eq_refl) as [H1 H2]. subst r.
-      split; [reflexivity|]. constructor; [|exact H2]. apply Z.gtb_ltb in E. apply Z.ltb_ge in E. exact E.
+      split; [reflexivity|]. constructor; [|exact H2]. rewrite Z.gtb_ltb in E. apply Z.ltb_ge in E. exact E.
 Qed.
 Lemma dump_spec f lim buf o k : dump A f lim buf = (o, k) -> buf = o ++ k.
 Proof.
